@@ -6,6 +6,7 @@ package main
 
 import (
 	"fmt"
+	"os"
 	"go/types"
 	"strings"
 
@@ -560,12 +561,15 @@ func (m *Machine) isNotExist(iv IfaceV) bool {
 		if !ok {
 			// real *os.PathError built by repo code: look at its Err field
 			if p, okp := cur.v.(Pointer); okp {
-				if sl, oks := p.loc.(*StructLoc); oks && strings.HasSuffix(cur.t.String(), "fs.PathError") {
+				if sl, oks := p.loc.(*StructLoc); oks && (strings.HasSuffix(cur.t.String(), "fs.PathError") || strings.HasSuffix(cur.t.String(), "os.PathError")) {
 					if inner, oki := m.load(sl.fields[2]).(IfaceV); oki {
 						cur = inner
 						continue
 					}
 				}
+			}
+			if os.Getenv("VERIF_DEBUG_NOTEXIST") != "" {
+				fmt.Fprintf(os.Stderr, "isNotExist: t=%v v=%T\n", cur.t, cur.v)
 			}
 			return false
 		}
